@@ -84,6 +84,7 @@ def corr_H(run, configs, betas, poisons):
     """configs: [(L, P)], betas: [(label, complex)], poisons: floats"""
     import spherical
     b = Batch(run, "H-recursion")
+    b2 = Batch(run, "H-recursion-generated-kernels")   # Gen/HKern.lean: translated from the kernels' Python text on this run
     for ic, (L, P) in enumerate(configs):
         # the calculator's ell_min must not change what the recursion computes (all rows from 0 are filled and used by the Horner routes)
         emin = [0, min(2, L), L, min(1, L)][ic % 4]
@@ -96,7 +97,9 @@ def corr_H(run, configs, betas, poisons):
                 w.H(complex(z), Hw, Hv, Hx)
                 b.add(f"H {L} {w.mp_max} {fbits(z.real)} {fbits(z.imag)} {fbits(poison)}",
                       arr_bits(Hw) + arr_bits(Hv) + arr_bits(Hx), {"L": L, "P": P, "ell_min": emin, "expibeta": [z.real, z.imag], "poison": repr(poison), "stratum": lab}, lab)
-    return b.flush()
+                b2.add(f"genH {L} {w.mp_max} {fbits(z.real)} {fbits(z.imag)} {fbits(poison)}",
+                       arr_bits(Hw) + arr_bits(Hv) + arr_bits(Hx), {"L": L, "P": P, "ell_min": emin, "expibeta": [z.real, z.imag], "poison": repr(poison), "stratum": lab, "model": "generated"}, lab)
+    return b.flush() + b2.flush()
 
 
 def corr_tables(run, Ls):
@@ -108,6 +111,7 @@ def corr_tables(run, Ls):
         for arr in (w._a, w._b, w._d, w._g, w._h):
             e += arr_bits(arr)
         b.add(f"tables {L}", e, {"L": L})
+        b.add(f"gentables {L}", e, {"L": L, "model": "generated"})
     return b.flush()
 
 
